@@ -830,13 +830,26 @@ class NetCDFWrite(IOWrite):
         """
         g = self.write_vars
 
-        if not self._already_in_file(index_variable):
+        # An index variable that spans an existing dimension (the
+        # profile dimension of a count variable) can only be shared
+        # with an index variable that spans the same dimension
+        ncdims = None if create_ncdim else (ncdim,)
+
+        if not self._already_in_file(index_variable, ncdims=ncdims):
             ncvar = self._create_netcdf_variable_name(
                 index_variable, default="index"
             )
 
             if create_ncdim:
-                ncdim = self._netcdf_name(ncdim)
+                new_ncdim = self._netcdf_name(ncdim)
+                if sample_dimension == ncdim:
+                    # The index variable's dimension is the sample
+                    # dimension, so use the name that was actually
+                    # given to it (which differs from the requested
+                    # name if that was already in use).
+                    sample_dimension = new_ncdim
+
+                ncdim = new_ncdim
                 self._write_dimension(
                     ncdim,
                     f,
@@ -853,6 +866,9 @@ class NetCDFWrite(IOWrite):
             g["index_variable_sample_dimension"][ncvar] = sample_dimension
         else:
             ncvar = g["seen"][id(index_variable)]["ncvar"]
+            sample_dimension = g["index_variable_sample_dimension"].get(
+                ncvar, sample_dimension
+            )
 
         return sample_dimension
 
@@ -3694,7 +3710,10 @@ class NetCDFWrite(IOWrite):
                     # group structure from the name.
                     sample_ncdim = self._remove_group_structure(sample_ncdim)
 
-                index_ncdim = count_ncdim
+                # The index variable spans the dimension that was
+                # actually used for the count variable (which differs
+                # from the requested name if that was already in use)
+                index_ncdim = g["seen"][id(count)]["ncdims"][0]
                 index = self.implementation.get_index(f)
                 self._write_index_variable(
                     f,
